@@ -511,7 +511,7 @@ func checkC19(c *c19Case, r *vstat.Run) outcome {
 		switch c.Static {
 		case "OnlyUnexported", "NoTags", "LeftRec", "DeepBad", "EmbedBadLater", "EmbedUnclosedLater":
 			expect, reason = tagMalformed, "no usable field / left recursion / unknown token type in a deeply embedded field"
-		case "Unexported", "Nested", "Rec", "EmbedSelf", "EmbedPair", "EmbedVal", "Deep":
+		case "Unexported", "Nested", "Rec", "EmbedSelf", "EmbedPair", "EmbedVal", "Deep", "Layers15", "Layers30":
 			expect = tagValid
 		}
 		if strings.HasPrefix(c.Static, "example:") {
@@ -612,8 +612,39 @@ func checkC19(c *c19Case, r *vstat.Run) outcome {
 	return outcome{}
 }
 
+// c19Layer: a production that refers to the next layer three times. Thirty layers are thirty-one productions and
+// 3^30 paths through the production graph: Build's work must follow the former.
+type c19Layer[T any] struct {
+	A *T `  "a" @@`
+	B *T `| "b" @@`
+	C *T `| "ab" @@`
+}
+type c19Leaf struct {
+	V string `@Int`
+}
+type (
+	c19L5  = c19Layer[c19Layer[c19Layer[c19Layer[c19Layer[c19Leaf]]]]]
+	c19L10 = c19Layer[c19Layer[c19Layer[c19Layer[c19Layer[c19L5]]]]]
+	c19L15 = c19Layer[c19Layer[c19Layer[c19Layer[c19Layer[c19L10]]]]]
+	c19L20 = c19Layer[c19Layer[c19Layer[c19Layer[c19Layer[c19L15]]]]]
+	c19L25 = c19Layer[c19Layer[c19Layer[c19Layer[c19Layer[c19L20]]]]]
+	c19L30 = c19Layer[c19Layer[c19Layer[c19Layer[c19Layer[c19L25]]]]]
+)
+
 func buildStatic(name string) (bool, error) {
 	switch name {
+	case "Layers15":
+		p, err := participle.Build[c19L15]()
+		return p != nil, err
+	case "Layers30":
+		p, err := participle.Build[c19L30]()
+		if err == nil {
+			v, perr := p.ParseString("", strings.Repeat("a b ab ", 10)+"7")
+			if perr != nil || v.A == nil || v.A.B == nil || v.A.B.C == nil {
+				return false, fmt.Errorf("layered grammar built but does not parse its own language: %v", perr)
+			}
+		}
+		return p != nil, err
 	case "Rec":
 		p, err := participle.Build[c19Rec]()
 		return p != nil, err
@@ -700,7 +731,7 @@ func buildStatic(name string) (bool, error) {
 	return false, fmt.Errorf("harness: unknown static type")
 }
 
-var c19Statics = []string{"Rec", "Unexported", "OnlyUnexported", "NoTags", "Nested", "WithIface", "MapField", "ChanField", "LeftRec", "string", "*Rec", "[]Rec", "map", "any", "EmbedSelf", "EmbedPair", "EmbedVal", "Deep", "DeepBad", "EmbedBadLater", "EmbedUnclosedLater", "ParseableVal", "ParseIface", "SelfSlice", "SelfPtrSlice"}
+var c19Statics = []string{"Rec", "Unexported", "OnlyUnexported", "NoTags", "Nested", "WithIface", "MapField", "ChanField", "LeftRec", "string", "*Rec", "[]Rec", "map", "any", "EmbedSelf", "EmbedPair", "EmbedVal", "Deep", "DeepBad", "EmbedBadLater", "EmbedUnclosedLater", "ParseableVal", "ParseIface", "SelfSlice", "SelfPtrSlice", "Layers15", "Layers30"}
 
 func describeC19(c *c19Case) string {
 	if c.Grammar != nil {
